@@ -36,6 +36,18 @@
 (*  - A double definition leaves pLabelEntry dangling in C (the new entry  *)
 (*    is freed, EnterIntSymbolWithFlags still returns it); the model       *)
 (*    treats a later LabelModify on it as a no-op on the table.            *)
+(*  - Name scopes (asmallg.c CodeSECTION / CodeENDSECTION / CodePPSyms,    *)
+(*    asmpars.c FindNode / EnterSymbol): the table is keyed by <<name,     *)
+(*    section>>, m.stk is MomSectionHandle + SectionStack, m.fwd the       *)
+(*    FORWARD lists (SectionStack->LocSyms).  FindNode consults the        *)
+(*    FORWARD list of the innermost section only, and only in pass 1; a    *)
+(*    reference in front of a section-local definition that is NOT         *)
+(*    announced finds the same-named symbol of an outer scope in pass 1    *)
+(*    and asks for no further pass - the accident the manual describes     *)
+(*    under FORWARD.  The model reproduces it; PassLayout!ScopeSafe says   *)
+(*    which programs are free of it, and C01 is stated for those.          *)
+(*    PUBLIC / GLOBAL (a definition assigned to another scope) are not     *)
+(*    modelled.                                                            *)
 (***************************************************************************)
 EXTENDS PassLayout, TLC
 
@@ -57,7 +69,8 @@ CONSTANTS
 VARIABLES prog, org, phase, pass, i, m, snap
 vars == <<prog, org, phase, pass, i, m, snap>>
 
-Dangling == "!"
+Dangling == <<"!", "!">>     \* pLabelEntry points to a freed node
+AnyScope == "?"              \* FindNode: DestSection = -2, no section given
 MaxSymPass == 1
 
 -----------------------------------------------------------------------------
@@ -67,17 +80,41 @@ MaxSymPass == 1
 (*           (SymWert), ent (value the node was entered with; repair only) *)
 (*   errs    ErrorCount      jmp  JmpErrors                                *)
 (*   lab     pLabelEntry     labv LabelValue      (asmlabel.c)             *)
+(*   stk     MomSectionHandle followed by the handles saved in             *)
+(*           SectionStack (innermost first, Glob last)                     *)
+(*   fwd     SectionStack->LocSyms of every open section (innermost first):*)
+(*           the names announced by FORWARD and not yet defined            *)
 (*   page    DPRValue / RegB: the direct page declared by the last ASSUME  *)
 (*   lay     what WriteCode emitted in this pass                           *)
 (*   patched some label was moved by LabelModify (diagnostic / finding key)*)
 
 NoSym == [known |-> FALSE, defd |-> FALSE, val |-> 0, ent |-> 0]
-FreshM(o) == [pc |-> o, sym |-> [l \in Labels |-> NoSym], repass |-> FALSE, errs |-> 0, jmp |-> 0,
-              lab |-> NoLab, labv |-> -1, lay |-> <<>>, patched |-> FALSE, page |-> 0]
+FreshM(o) == [pc |-> o, sym |-> [y \in Syms |-> NoSym], repass |-> FALSE, errs |-> 0, jmp |-> 0,
+              lab |-> NoKey, labv |-> -1, lay |-> <<>>, patched |-> FALSE, page |-> 0,
+              stk |-> <<Glob>>, fwd |-> <<>>]
+
+\* asmpars.c GetSymSection / IdentifySection: the section named in brackets behind a symbol name
+SectionOf(s, q) == IF q = NoQ THEN AnyScope ELSE IF q = QGlob THEN Glob ELSE s.stk[q + 1]
+
+\* asmpars.c FindNode: the node a name is resolved to (NoKey: none).  The name is folded to upper case
+\* (unless -U) BEFORE it is compared with the FORWARD list - CodePPSyms stores the names folded; a name on that
+\* list is searched in the current section only, whatever the brackets say (first pass only: later the node of
+\* the local symbol exists and is found first anyway); without a section in brackets the current section is
+\* searched first, then the saved handles of SectionStack up to the global one
+FindNode(s, l, q, ps) ==
+  LET id        == Ident(l)
+      announced == ps <= MaxSymPass /\ id \in s.fwd[1]                       \* FindNode_FSpec
+      dest      == IF announced THEN s.stk[1] ELSE SectionOf(s, q)
+      path      == IF dest = AnyScope THEN s.stk ELSE <<dest>>
+      hits      == {k \in 1..Len(path) : s.sym[<<id, path[k]>>].known}
+  IN IF Len(s.stk) = 1                               \* SectionStack = NULL: there is only the global scope
+     THEN IF s.sym[<<id, Glob>>].known THEN <<id, Glob>> ELSE NoKey
+     ELSE IF hits = {} THEN NoKey ELSE <<id, path[MinOf(hits)]>>
 
 \* asmpars.c LookupSymbol
-LookupSymbol(s, l, ps) ==
-  LET e == s.sym[l] IN
+LookupSymbol(s, l, q, ps) ==
+  LET y == FindNode(s, l, q, ps)
+      e == IF y = NoKey THEN NoSym ELSE s.sym[y] IN
   IF e.known
   THEN [ok |-> TRUE, val |-> e.val, fpu |-> FALSE, quest |-> (~e.defd /\ s.repass), s |-> s]
   ELSE IF ps <= MaxSymPass
@@ -86,7 +123,7 @@ LookupSymbol(s, l, ps) ==
        ELSE [ok |-> FALSE, val |-> 0, fpu |-> FALSE, quest |-> FALSE,
              s |-> [s EXCEPT !.errs = @ + 1]]                          \* ErrNum_SymbolUndef
 
-\* asmpars.c SymbolAdder for a constant (MayChange = FALSE)
+\* asmpars.c SymbolAdder for a constant (MayChange = FALSE); l: the node's key <<name, section>>
 SymbolAdder(s, l, v, ps) ==
   LET e == s.sym[l] IN
   IF ~e.known
@@ -101,20 +138,28 @@ SymbolAdder(s, l, v, ps) ==
                          !.repass = @ \/ differs,                       \* phase error => another pass
                          !.sym[l] = [known |-> TRUE, defd |-> TRUE, val |-> v, ent |-> v]]
 
+\* asmpars.c EnterSymbol: the name (folded unless -U) is entered for the current section; a FORWARD entry of
+\* that section for it is thereby resolved and taken off the list
+SymKey(s, l) == <<Ident(l), s.stk[1]>>
+EnterSymbol(s, l, v, ps) ==
+  LET s1 == IF Len(s.stk) > 1 THEN [s EXCEPT !.fwd[1] = @ \ {Ident(l)}] ELSE s
+  IN SymbolAdder(s1, SymKey(s, l), v, ps)
+
 \* asmpars.c ChangeSymbol
 ChangeSymbol(s, l, v) == [s EXCEPT !.sym[l].val = v]
 
 \* asmlabel.c
 LabelHandle(s, l, ps) ==
-  LET dbl == s.sym[l].known /\ s.sym[l].defd
-      s1  == SymbolAdder(s, l, s.pc, ps)
-  IN [s1 EXCEPT !.lab = IF dbl THEN Dangling ELSE l, !.labv = s.pc]
+  LET y   == SymKey(s, l)
+      dbl == s.sym[y].known /\ s.sym[y].defd
+      s1  == EnterSymbol(s, l, s.pc, ps)
+  IN [s1 EXCEPT !.lab = IF dbl THEN Dangling ELSE y, !.labv = s.pc]
 LabelModify(s, old, new) ==
   IF old = s.labv
-  THEN LET s1 == IF s.lab \in Labels THEN ChangeSymbol(s, s.lab, new) ELSE s
-       IN [s1 EXCEPT !.labv = new, !.patched = @ \/ (s.lab \in Labels)]
+  THEN LET s1 == IF s.lab \in Syms THEN ChangeSymbol(s, s.lab, new) ELSE s
+       IN [s1 EXCEPT !.labv = new, !.patched = @ \/ (s.lab \in Syms)]
   ELSE s
-LabelReset(s) == [s EXCEPT !.lab = NoLab, !.labv = -1]
+LabelReset(s) == [s EXCEPT !.lab = NoKey, !.labv = -1]
 
 \* asmcode.c InsertPadding(1, ...)
 InsertPadding(s) == LabelModify([s EXCEPT !.pc = @ + 1], s.pc, s.pc + 1)
@@ -127,11 +172,11 @@ WrJmpError(s) == [s EXCEPT !.errs = @ + 1, !.jmp = IF s.repass THEN @ ELSE @ + 1
 \* operand evaluation of a reference statement (EvalStrIntExpression...): the PC symbol is EProgCounter()
 \* *after* the padding; t - l looks both symbols up
 Operand(s, it, ps) ==
-  IF PlainRef(it) THEN LookupSymbol(s, it.l, ps)
+  IF PlainRef(it) THEN LookupSymbol(s, it.l, it.q, ps)
   ELSE IF it.t = PcSym THEN [ok |-> TRUE, val |-> s.pc, fpu |-> FALSE, quest |-> FALSE, s |-> s]
-  ELSE LET r == LookupSymbol(s, it.t, ps) IN
+  ELSE LET r == LookupSymbol(s, it.t, NoQ, ps) IN
        IF ~(it.k = "labs" /\ it.df) \/ ~r.ok THEN r
-       ELSE LET r2 == LookupSymbol(r.s, it.l, ps) IN
+       ELSE LET r2 == LookupSymbol(r.s, it.l, NoQ, ps) IN
             [ok |-> r2.ok, val |-> r.val - r2.val, fpu |-> r.fpu \/ r2.fpu, quest |-> r.quest \/ r2.quest, s |-> r2.s]
 
 \* one source statement (as.c Produce_Code + the target's MakeCode): label field, automatic padding (which
@@ -156,51 +201,105 @@ Statement(s0, it, ps) ==
                               ELSE IF ~Disp8(r.val - (s.pc + 2)) /\ ~r.quest /\ ~(RelFpuOK /\ r.fpu)
                                    THEN Emit(WrJmpError(r.s), pd, 0, -1)        \* ErrNum_JmpDistTooBig
                                    ELSE Emit(r.s, pd, 2, r.val)
-          [] it.k = "equ"  -> LET r == LookupSymbol(s, it.l2, ps) IN           \* asmallg.c CodeSETEQU
+          [] it.k = "equ"  -> LET r == LookupSymbol(s, it.l2, NoQ, ps) IN      \* asmallg.c CodeSETEQU
                               IF ~r.ok \/ r.fpu THEN Emit(r.s, pd, 0, -1)
-                              ELSE Emit(SymbolAdder(r.s, it.l, r.val + it.d, ps), pd, 0, -1)
+                              ELSE Emit(EnterSymbol(r.s, it.l, r.val + it.d, ps), pd, 0, -1)
+          \* asmallg.c CodeSECTION: push the current handle, the new section (child of the current one) becomes
+          \* the current one, its FORWARD list is empty
+          [] it.k = "sect" -> Emit([s EXCEPT !.stk = <<it.s>> \o @, !.fwd = <<{}>> \o @], pd, 0, -1)
+          \* asmallg.c CodeENDSECTION: ErrNum_NotInSection outside; every name still on the FORWARD list is an
+          \* error (ErrNum_UndefdForward); back to the saved handle
+          [] it.k = "ends" -> IF Len(s.stk) = 1 THEN Emit([s EXCEPT !.errs = @ + 1], pd, 0, -1)
+                              ELSE Emit([s EXCEPT !.errs = @ + Cardinality(s.fwd[1]),
+                                                  !.stk = Tail(@), !.fwd = Tail(@)], pd, 0, -1)
+          \* asmallg.c CodeGlobalPseudo: FORWARD is an instruction only inside a section (unknown opcode
+          \* otherwise), and CodePPSyms runs in the first pass only; the name is stored folded
+          [] it.k = "fwd"  -> IF Len(s.stk) = 1 THEN Emit([s EXCEPT !.errs = @ + 1], pd, 0, -1)
+                              ELSE IF ps > MaxSymPass THEN Emit(s, pd, 0, -1)
+                              ELSE Emit([s EXCEPT !.fwd[1] = @ \cup {Ident(it.l)}], pd, 0, -1)
   IN LabelReset(body)            \* as.c: every statement with an opcode forgets the previous label
 
 \* as.c AssembleFile_InitPass + ResetSymbolDefines + AsmErrPassInit; JmpErrors is *not* reset by the code
 InitPass(s, o) ==
-  [s EXCEPT !.pc = o, !.repass = FALSE, !.errs = 0, !.lab = NoLab, !.labv = -1, !.lay = <<>>,
+  [s EXCEPT !.pc = o, !.repass = FALSE, !.errs = 0, !.lab = NoKey, !.labv = -1, !.lay = <<>>,
             !.page = IF PageReset THEN 0 ELSE @,
-            !.sym = [l \in Labels |-> [s.sym[l] EXCEPT !.defd = FALSE]]]
+            !.stk = <<Glob>>, !.fwd = <<>>,                   \* as.c: SectionStack = NULL, MomSectionHandle = -1
+            !.sym = [y \in Syms |-> [s.sym[y] EXCEPT !.defd = FALSE]]]
 
-Vals(s) == [l \in Labels |-> IF s.sym[l].known THEN s.sym[l].val ELSE -1]
+\* all symbol values (what a further pass must not change); Vals: those of the global symbols by name (export)
+AllVals(s) == [y \in Syms |-> IF s.sym[y].known THEN s.sym[y].val ELSE -1]
+Vals(s) == [l \in Idents |-> IF s.sym[<<l, Glob>>].known THEN s.sym[<<l, Glob>>].val ELSE -1]
 
 -----------------------------------------------------------------------------
 (* Behaviours: build a program item by item, then assemble it. *)
 
 NextPassNo(ps) == IF ps >= 3 THEN 3 ELSE ps + 1
-NoSnap == [lay |-> <<>>, vals |-> [l \in Labels |-> -2]]
+NoSnap == [lay |-> <<>>, vals |-> [y \in Syms |-> -2]]
 
 \* labels are introduced in a fixed order (a symmetry reduction that keeps liveness checking possible;
 \* TLA+ has no order on strings, LabelOrder supplies one)
 LabelOrder == CHOOSE f \in [Labels -> 1..Cardinality(Labels)] : \A a, b \in Labels : a # b => f[a] # f[b]
-Introduced(p, it) ==
+\* the spellings of one name are NOT interchangeable for the program under test (an assembler that folds case in
+\* one place and not in another tells them apart): the order is one of names, every spelling of a name may come first
+Rank == [l \in Labels |-> MinOf({LabelOrder[x] : x \in {x \in Labels : Ident(x) = Ident(l)}})]
+Introduced(b, it) ==                 \* b.ment: the labels spelled in the program so far
   \A l \in Labels : Mentions(it, l) =>
-     \A l0 \in Labels : LabelOrder[l0] < LabelOrder[l] =>
-        (Mentions(it, l0) \/ \E j \in 1..Len(p) : Mentions(p[j], l0))
+     \A l0 \in Labels : Rank[l0] < Rank[l] =>
+        \E l1 \in (IF Alias = {} THEN {l0} ELSE {x \in Labels : Rank[x] = Rank[l0]}) :
+            Mentions(it, l1) \/ l1 \in b.ment
+SectOrder == CHOOSE f \in [Sects -> 1..Cardinality(Sects)] : \A a, b \in Sects : a # b => f[a] # f[b]
 
 Init == /\ prog = <<>> /\ org \in Orgs /\ phase = "build" /\ pass = 1 /\ i = 1
         /\ m = FreshM(org) /\ snap = NoSnap
 
-\* builder pruning: a second definition of a label is only of interest for the error paths
-NoDouble(p, it) == AllowIllFormed \/ \A l \in Labels : Defines(it, l) => DefIdx(p, l) = {}
-Completing(p, it) == Complete /\ Len(p) < MaxItems + Cardinality(Labels)
-                     /\ it.k = "def" /\ ~it.al /\ UseIdx(p, it.l) # {} /\ DefIdx(p, it.l) = {}
+\* what the builder has to know about the program so far (evaluated once per program, not once per candidate
+\* item): st = the scopes a statement appended to p stands in, defs = the symbols p defines, ment = the labels
+\* it spells
+EndStack(p) == Stacks(p)[Len(p) + 1]
+BuildInfo(p) == LET stk == Stacks(p) IN
+                [st |-> stk[Len(p) + 1], stk |-> stk, defs |-> {DSym(p, stk, j) : j \in 1..Len(p)},
+                 ment |-> {l \in Labels : \E j \in 1..Len(p) : Mentions(p[j], l)}]
+\* builder pruning: a second definition of a symbol is only of interest for the error paths
+NoDouble(b, it) == IF AllowIllFormed \/ ~DefinesName(it) THEN TRUE ELSE <<Ident(it.l), b.st[1]>> \notin b.defs
+\* a closing definition for a name that is used and has no symbol yet
+Completing(p, b, it) ==
+  /\ Complete /\ Len(p) < MaxItems + Cardinality(Labels)
+  /\ it.k = "def" /\ ~it.al /\ <<Ident(it.l), b.st[1]>> \notin b.defs
+  /\ \E j \in 1..Len(p) :
+        /\ HasRefName(p[j]) /\ Ident(RefName(p[j])) = Ident(it.l)
+        /\ \E path \in {Selected(b.stk[j], RefQual(p[j]))} :
+              /\ \E k \in DOMAIN path : path[k] = b.st[1]
+              /\ \A k \in DOMAIN path : <<Ident(it.l), path[k]>> \notin b.defs
+\* section statements only where they are no errors of their own (ENDSECTION / FORWARD outside a section, a
+\* section name used twice, brackets naming no enclosing section, FORWARD behind the definition or twice);
+\* section names in a fixed order like the labels
+Grammar(p, b, it) ==
+  IF Sects = {} THEN TRUE
+  ELSE CASE it.k = "sect" -> /\ \A j \in 1..Len(p) : p[j].k = "sect" => p[j].s # it.s
+                             /\ \A s0 \in Sects : SectOrder[s0] < SectOrder[it.s] =>
+                                                    \E j \in 1..Len(p) : p[j].k = "sect" /\ p[j].s = s0
+         [] it.k = "ends" -> Len(b.st) > 1
+         [] it.k = "fwd"  -> /\ Len(b.st) > 1 /\ <<Ident(it.l), b.st[1]>> \notin b.defs
+                             /\ ~\E h \in 1..Len(p) : p[h].k = "fwd" /\ Ident(p[h].l) = Ident(it.l) /\ b.stk[h] = b.st
+         [] PlainRef(it)  -> Selected(b.st, it.q) # <<>>
+         [] OTHER         -> TRUE
 
 Append1 == /\ phase = "build"
-           /\ \E it \in Items : /\ Len(prog) < MaxItems \/ Completing(prog, it)
-                                /\ Introduced(prog, it) /\ NoDouble(prog, it)
-                                /\ prog' = Append(prog, it)
+           /\ \E b \in {BuildInfo(prog)} : \E it \in Items :
+                 /\ Len(prog) < MaxItems \/ Completing(prog, b, it)
+                 /\ Introduced(b, it) /\ NoDouble(b, it) /\ Grammar(prog, b, it)
+                 /\ prog' = Append(prog, it)
            /\ UNCHANGED <<org, phase, pass, i, m, snap>>
 
-Start == /\ phase = "build" /\ Len(prog) >= 1
-         /\ (AllowIllFormed \/ WellFormed(prog))
-         /\ phase' = "run"
-         /\ UNCHANGED <<prog, org, pass, i, m, snap>>
+\* sections still open behind the last item are closed here (an ENDSECTION as last item would only repeat that)
+Closed(p) == IF Len(EndStack(p)) = 1 THEN p
+             ELSE p \o [n \in 1..(Len(EndStack(p)) - 1) |-> [k |-> "ends"]]
+\* (an alphabet with sections is there for the programs with sections; the others belong to the plain alphabets)
+Start == /\ phase = "build" /\ Len(prog) >= 1 /\ prog[Len(prog)].k # "ends"
+         /\ (Sects = {} \/ \E j \in 1..Len(prog) : prog[j].k = "sect")
+         /\ (AllowIllFormed \/ WellFormed(Closed(prog)))
+         /\ phase' = "run" /\ prog' = Closed(prog)
+         /\ UNCHANGED <<org, pass, i, m, snap>>
 
 Running == phase \in {"run", "extra", "post"}
 
@@ -217,7 +316,7 @@ EndPass ==
           /\ phase' = IF phase = "extra" THEN "post" ELSE phase
           /\ UNCHANGED <<prog, org, snap>>
      ELSE IF m.errs = 0 /\ phase = "run" /\ WithExtra
-          THEN /\ snap' = [lay |-> m.lay, vals |-> Vals(m)]
+          THEN /\ snap' = [lay |-> m.lay, vals |-> AllVals(m)]
                /\ phase' = "extra" /\ pass' = NextPassNo(pass) /\ i' = 1 /\ m' = InitPass(m, org)
                /\ UNCHANGED <<prog, org>>
           ELSE /\ phase' = "done"
@@ -232,7 +331,8 @@ Spec == Init /\ [][Next]_vars /\ WF_vars(Run)
 
 TypeOK ==
   /\ phase \in {"build", "run", "extra", "post", "done"} /\ pass \in 1..3 /\ i \in 1..(Len(prog) + 1)
-  /\ Len(prog) <= MaxItems + (IF Complete THEN Cardinality(Labels) ELSE 0) /\ m.errs >= 0 /\ m.jmp >= 0
+  /\ Len(prog) <= MaxItems + (IF Complete THEN Cardinality(Labels) ELSE 0) + Cardinality(Sects)
+  /\ m.errs >= 0 /\ m.jmp >= 0 /\ Len(m.fwd) = Len(m.stk) - 1
 
 Done == phase = "done"
 
@@ -245,23 +345,34 @@ LivelockOnlyWhenPatched == [](Running => <>(Done \/ m.patched))
 
 \* C01, second sentence: in the code emitted by the last pass every use of a symbol encodes the
 \* value the symbol finally has = where it is defined in the emitted layout
+\* (stated for the programs the manual gives a definite outcome: no use of a name that the first pass can take
+\* for a symbol of a higher section without a FORWARD or brackets saying otherwise - PassLayout!ScopeSafe)
+Definite == ScopeSafe(prog)
 Fixpoint ==
-  (Done /\ m.errs = 0) =>
-     /\ Valid(prog, org, m.lay)
-     /\ \A l \in Labels : DefIdx(prog, l) # {} => m.sym[l].known /\ m.sym[l].val = SymVal(prog, m.lay, l)
+  (Done /\ m.errs = 0 /\ Definite) =>
+     \E sa \in {Analysis(prog)} :
+       /\ ValidA(prog, sa, org, m.lay)
+       /\ \A y \in Syms : DefIdx(prog, sa, y) # {} =>
+                             m.sym[y].known /\ m.sym[y].val = SymValA(prog, sa, m.lay, y)
 
 \* C01, third sentence: one further pass changes neither the code nor any symbol value
 ExtraPassIsStutter ==
-  /\ phase # "post"
-  /\ (Done /\ snap # NoSnap) => (m.errs = 0 /\ ~m.repass /\ m.lay = snap.lay /\ Vals(m) = snap.vals)
+  /\ (phase = "post" => ~Definite)
+  /\ (Done /\ snap # NoSnap /\ Definite) =>
+        (m.errs = 0 /\ ~m.repass /\ m.lay = snap.lay /\ AllVals(m) = snap.vals)
 
 \* an error ends the assembly only when the program really has no resolved layout
 \* (programs the manual warns about - EQU from a forward reference - excluded)
 NoSpuriousError ==
-  (Done /\ m.errs > 0 /\ WellFormed(prog) /\ EquBackward(prog)) => ~Solvable(prog, org)
+  (Done /\ m.errs > 0 /\ WellFormed(prog) /\ EquBackward(prog) /\ Definite) => ~Solvable(prog, org)
 
 \* and the other way round: a clean end means a solution exists (sanity of the declarative side)
-CleanMeansSolvable == (Done /\ m.errs = 0) => Solvable(prog, org)
+CleanMeansSolvable == (Done /\ m.errs = 0 /\ Definite) => Solvable(prog, org)
+
+\* NOT an invariant: Fixpoint without the restriction to definite programs.  TLC must refute it with the accident
+\* of the manual (PassLoop_MC_sect_accident.cfg): global la / SECTION / reference to la / la: / ENDSECTION ends
+\* after one pass with the global value in the operand
+FixpointAlsoWhenIndefinite == (Done /\ m.errs = 0) => Valid(prog, org, m.lay)
 
 \* ill-formed programs end with an error
 IllFormedRejected == (Done /\ ~WellFormed(prog)) => m.errs > 0
